@@ -148,14 +148,36 @@ def drive_kind(args):
             cases.append(c)
     rng = rng_for(0, 'c08' + kind)
     vecs = [[p] for p in P] + [list(P)] + [[rng.choice(P) for _ in range(rng.randint(2, 5))] for _ in range(12)]
-    for xs in vecs:
-        c = dict(base, kind='sum', xs=xs, tag=[kind, dtname, 'sum'], sum=[0, 0], addfold=[0, 0])
+    for vi, xs in enumerate(vecs):
+        c = dict(base, kind='sum', xs=xs, tag=[kind, dtname, 'sum'] + (['accumulator_is_from_int_itself'] if vi % 2 else []), sum=[0, 0], addfold=[0, 0])
         try:
             c['sum'] = pj(sr.sum(tens(xs, kind, dtype), dim=0))
-            acc = sr.from_int(0).clone()
+            # a HISTORY on one semiring object: the accumulator is what from_int(0) handed out (every other vector: not
+            # even cloned), updated in place; the semiring's constants must be untouched by that afterwards
+            acc = sr.from_int(0) if vi % 2 else sr.from_int(0).clone()
             for x in xs:
                 sr.add_(acc, s(x))
             c['addfold'] = pj(acc)
+        except Exception as e:  # noqa
+            c['out'] = 'raise:' + type(e).__name__
+        cases.append(c)
+    for n in range(0, 5):
+        c = dict(base, kind='fromint', n=n, tag=[kind, dtname, 'from_int', 'int', 'after_inplace_history'], r=[0, 0])
+        try:
+            c['r'] = pj(sr.from_int(n))
+        except Exception as e:  # noqa
+            c['out'] = 'raise:' + type(e).__name__
+        cases.append(c)
+    for a in P:
+        c = dict(base, kind='law', a=a, b=a, c=a, tag=[kind, dtname, 'law', 'after_inplace_history'])
+        try:
+            A = s(a)
+            zero2, one2 = sr.from_int(0), sr.from_int(1)
+            c.update(addl=pj(sr.add(sr.add(A, A), A)), addr=pj(sr.add(A, sr.add(A, A))),
+                     mull=pj(sr.mul(sr.mul(A, A), A)), mulr=pj(sr.mul(A, sr.mul(A, A))),
+                     distl=pj(sr.mul(A, sr.add(A, A))), distr=pj(sr.add(sr.mul(A, A), sr.mul(A, A))),
+                     ab=pj(sr.add(A, A)), ba=pj(sr.add(A, A)), mab=pj(sr.mul(A, A)), mba=pj(sr.mul(A, A)),
+                     a0=pj(sr.add(A, zero2)), a1=pj(sr.mul(A, one2)), az=pj(sr.mul(A, zero2)))
         except Exception as e:  # noqa
             c['out'] = 'raise:' + type(e).__name__
         cases.append(c)
